@@ -43,6 +43,10 @@ CLAIMED.update({
                 ref='DESIGN.md §3 C15', note=NOTE + '; real image.RGBA code is executed (image package bodies exported)'),
     'C16': dict(text='per source page (configuration; quick: class boundaries + seeded pages, thorough: all 00-F1) with every source/OAM content symbolic: after Write(FF46,page) every OAM read (any FE00-FEFF address) returns FF during the first 161 cycles, the transfer is finished after 162 real Mapper machine cycles, each of the 160 OAM bytes equals the source byte read through the real decoder (E0-F1 through the work-RAM mirror), FEA0-FEFF read 0 afterwards; restart of a running transfer after j cycles',
                 ref='DESIGN.md §3 C16'),
+    'C18': dict(text='one-step inductive checks from every APU state satisfying the field-range invariant (itself proved preserved by every register write, wave-RAM write and clock): powered on, Write(R,v) reads back v|mask(R) for each of NR10-NR51 and changes no other read-back; a machine cycle changes no read-back; power off makes every register read its mask and NR52 0x70; while off one write to any register is ignored except that NR11/21/31/41 load their length counters; power on keeps the masks; wave RAM with channel 3 off is plain memory and survives power cycles and every register write',
+                ref='DESIGN.md §3 C18'),
+    'C20': dict(text='one clock / one machine cycle from every APU state: a stereo pair is emitted iff sound is on, outputs attached and the clock index is a multiple of 95 (index advances by one per clock, wraps once per emulated second); one takeSample from every state: both float32 samples in [0,1), exactly 0 when no status-on channel is routed to the side; 2-safety self-composition: states differing only in an unrouted channel give identical samples on that side',
+                ref='DESIGN.md §3 C20', note=NOTE + '; IEEE float32 semantics via the SMT FP theory; channel sends modelled as a bounded log'),
 })
 
 NA_REASON = {
